@@ -29,9 +29,17 @@ theorem specials_nil_of_hdim (c : Cfg) (hs : c.Sound) (h : c.nHdim = c.nDim) : c
     simp only [Cfg.nHdim, Cfg.nDim] at h
     omega
 
+/-- when every sub-model is detected, there is one special block per sub-model -/
+theorem specialsFrom_length_all (p : Bool) : ∀ (us : List SubModel) (d0 t0 : Nat),
+    (∀ u ∈ us, u.detect = some p) → (specialsFrom us d0 t0).length = us.length
+  | [], _, _, _ => rfl
+  | u :: us, d0, t0, h => by
+    have hu := h u List.mem_cons_self
+    simp only [specialsFrom, hu, List.length_cons]
+    rw [specialsFrom_length_all p us _ _ (fun v hv => h v (List.mem_cons_of_mem _ hv))]
+
 /-- C13_scatter, all four paths of `_reshape_bottom_parameters` -/
-theorem reshapeBottom_spec (c : Cfg) (hs : c.Sound)
-    (hH : c.heteroDim = c.nDim → c.subs.length ≤ 1) (top : Nat → α) (bottom : Nat → Nat → α)
+theorem reshapeBottom_spec (c : Cfg) (hs : c.Sound) (top : Nat → α) (bottom : Nat → Nat → α)
     (s d : Nat) (hd : d < c.nDim) :
     (∀ sp ∈ c.specials, sp.a ≤ d → d < sp.b →
       reshapeBottom c top bottom s d = fill top s sp d) ∧
@@ -58,10 +66,14 @@ theorem reshapeBottom_spec (c : Cfg) (hs : c.Sound)
       · intro hns
         exact absurd (hp2 d (Nat.zero_le _) (by simpa [Cfg.nDim] using hd)) hns
     · rw [if_neg h2]
-      by_cases h3 : c.heteroDim = c.nDim
+      by_cases h3 : c.heteroDim = c.nDim ∧ c.specials.length = 1
       · rw [if_pos h3]
-        have hall := all_detect false c.subs h3 hposall
-        have hlen := hH h3
+        have hall := all_detect false c.subs h3.1 hposall
+        have hlen : c.subs.length ≤ 1 := by
+          have := specialsFrom_length_all false c.subs 0 0 hall
+          have h31 := h3.2
+          simp only [Cfg.specials] at h31
+          omega
         -- exactly one sub-model
         match hsub : c.subs, hlen with
         | [], _ =>
@@ -463,9 +475,9 @@ theorem removeDuplicates_adjoint (c : Cfg) (hs : c.Sound) (x sens : Nat → ℝ)
       (fun k => writeBottom_after c sens D k)]
     simp only [mul_zero, Finset.sum_const_zero, add_zero, bottomBlock, ← h1, Nat.add_assoc]
   · rw [if_neg h1, if_neg h1]
-    by_cases h3 : c.heteroDim = c.nDim
-    · -- all heterogeneous
-      have hall := all_detect false c.subs h3 hposall
+    by_cases h3 : c.heteroDim = c.nDim ∧ c.specials.length = 1
+    · -- all heterogeneous, one block
+      have hall := all_detect false c.subs h3.1 hposall
       have hH0 := nHdim_zero_of_all c hs false hall
       have hP : c.nPop = c.nS * c.nDim := by
         unfold Cfg.nPop Cfg.nDim
